@@ -64,7 +64,7 @@ def _parse_label(s):
     return label.strip(), props, expr
 
 
-_RW = re.compile(r'^(R\d+[a-z]?)\s+"((?:[^"\\]|\\.)*)"\s*=>\s*"((?:[^"\\]|\\.)*)"\s*(?:x(\d+|\*))?$', re.S)
+_RW = re.compile(r'^(R\d+[a-z]?)\s+"((?:[^"\\]|\\.)*)"\s*=>\s*"((?:[^"\\]|\\.)*)"\s*(?:x(\d+|\*|\?))?$', re.S)
 
 
 def _unq(s):
@@ -161,7 +161,7 @@ def parse_unit(path):
             if not m:
                 raise ExtractError("%s:%d: bad rewrite directive" % (path, ln))
             exp = m.group(4)
-            exp = None if exp == "*" else (int(exp) if exp else 1)
+            exp = None if exp == "*" else (-1 if exp == "?" else (int(exp) if exp else 1))
             (d.rewrites if f is d.top else f.rewrites).append(
                 (m.group(1), _unq(m.group(2)), _unq(m.group(3)), exp))
             last = None
